@@ -125,9 +125,33 @@ static bool parse_double(const std::string &s, double &out)
 }
 
 // ---------------------------------------------------------------- attribute lists owned by the harness
+// A key buffer.  exact: a heap block of exactly the key's size (any read past the end is an ASan report).
+// guarded: the key's bytes followed by 'Z' and a NUL inside the same block - still not terminated at its own length,
+// so code that reads the key as a C string sees a *different* key (caught by the oracle) but does not abort the
+// process; used for the bulk of the allow-list cases so that a reintroduced C-string lookup does not turn every case
+// into a sanitizer abort (the exact variant is kept for a sample of them).
+struct KeyBuf
+{
+  std::unique_ptr<char[]> p;
+  size_t n;
+  KeyBuf(const std::string &s, bool guarded) : p(new char[s.size() + (guarded ? 2 : (s.empty() ? 1 : 0))]), n(s.size())
+  {
+    if (n) memcpy(p.get(), s.data(), n);
+    if (guarded)
+    {
+      p[n]     = 'Z';
+      p[n + 1] = 0;
+    }
+    else if (!n)
+      p[0] = 'Z';
+  }
+  const char *data() const { return p.get(); }
+  size_t size() const { return n; }
+};
+
 struct Holder
 {
-  std::unique_ptr<vh::Exact> key;
+  std::unique_ptr<KeyBuf> key;
   common::AttributeValue value;
   // backing stores
   std::unique_ptr<vh::Exact> str;
@@ -289,7 +313,7 @@ public:
   size_t size() const noexcept override { return items.size(); }
 };
 
-static bool parse_attrs(const std::string &tok, AttrList &out)
+static bool parse_attrs(const std::string &tok, AttrList &out, bool guarded)
 {
   if (tok == "-") return true;
   for (auto &kv : split(tok, ','))
@@ -300,7 +324,7 @@ static bool parse_attrs(const std::string &tok, AttrList &out)
     if (!hex_maybe_empty(parts[0], k)) return false;
     out.items.emplace_back();
     Holder &h = out.items.back();
-    h.key.reset(new vh::Exact(k));
+    h.key.reset(new KeyBuf(k, guarded));
     if (!parse_value(parts[1], h)) return false;
   }
   return true;
@@ -381,13 +405,14 @@ static std::string show_key(const opentelemetry::sdk::common::OrderedAttributeMa
 // ---------------------------------------------------------------- attr eq
 static std::string run_attr(const std::vector<std::string> &t)
 {
-  if (t.size() != 5 || t[1] != "eq") return "bad-op";
+  if (t.size() != 5 || (t[1] != "eq" && t[1] != "eqg")) return "bad-op";
+  bool guarded = t[1] == "eqg";
   std::unique_ptr<sm::AttributesProcessor> proc;
   if (!parse_filter(t[2], proc)) return "bad-op";
   std::unique_ptr<sm::FilteredOrderedAttributeMap> ma, mb;
   {
     AttrList a, b;
-    if (!parse_attrs(t[3], a) || !parse_attrs(t[4], b)) return "bad-op";
+    if (!parse_attrs(t[3], a, guarded) || !parse_attrs(t[4], b, guarded)) return "bad-op";
     ma.reset(new sm::FilteredOrderedAttributeMap(a, proc.get()));
     mb.reset(new sm::FilteredOrderedAttributeMap(b, proc.get()));
   }  // caller buffers are gone: the maps must own their content
@@ -484,7 +509,7 @@ static bool parse_ops(const std::vector<std::vector<std::string>> &ops, size_t n
       p.kind  = 0;
       p.attrs = op[1];
       AttrList probe;
-      if (!parse_attrs(op[1], probe)) return false;
+      if (!parse_attrs(op[1], probe, true)) return false;
       if (!parse_nat(op[2], static_cast<__int128>(1) << 40, v)) return false;
       p.value = static_cast<long long>(v);
     }
@@ -513,7 +538,7 @@ static bool parse_ops(const std::vector<std::vector<std::string>> &ops, size_t n
 }
 
 template <class REC, class COL>
-static std::string drive(const std::vector<ParsedOp> &ops, REC rec, COL col)
+static std::string drive(const std::vector<ParsedOp> &ops, bool guarded, REC rec, COL col)
 {
   std::vector<std::string> outs;
   for (auto &op : ops)
@@ -521,7 +546,7 @@ static std::string drive(const std::vector<ParsedOp> &ops, REC rec, COL col)
     if (op.kind == 0)
     {
       AttrList a;
-      parse_attrs(op.attrs, a);
+      parse_attrs(op.attrs, a, guarded);
       rec(op.value, a);
     }
     else if (op.kind == 1)
@@ -531,7 +556,7 @@ static std::string drive(const std::vector<ParsedOp> &ops, REC rec, COL col)
         AttrList a;
         a.items.emplace_back();
         Holder &h = a.items.back();
-        h.key.reset(new vh::Exact(op.prefix));
+        h.key.reset(new KeyBuf(op.prefix, guarded));
         h.value = static_cast<int64_t>(i);
         rec(op.value, a);
       }
@@ -573,7 +598,7 @@ static std::string run_store(const std::vector<std::string> &t)
   for (auto tp : temps) collectors.emplace_back(new Handle(tp));
   auto start = std::chrono::system_clock::now();
   return drive(
-      ops,
+      ops, t[1] == "storeg",
       [&](long long v, const AttrList &a) { storage.RecordLong(v, a, opentelemetry::context::Context{}); },
       [&](size_t r) {
         bool seen = false;
@@ -614,7 +639,7 @@ static std::string run_sdk(const std::vector<std::string> &t)
   auto meter   = mp.GetMeter("m", "1", "s");
   auto counter = meter->CreateUInt64Counter("c", "", "");
   return drive(
-      ops,
+      ops, t[1] == "sdkg",
       [&](long long v, const AttrList &a) { counter->Add(static_cast<uint64_t>(v), a, opentelemetry::context::Context{}); },
       [&](size_t r) {
         bool seen = false;
@@ -639,8 +664,8 @@ static std::string handle(const std::vector<std::string> &t)
   if (t[0] == "attr") return run_attr(t);
   if (t[0] == "series" && t.size() >= 2)
   {
-    if (t[1] == "store") return run_store(t);
-    if (t[1] == "sdk") return run_sdk(t);
+    if (t[1] == "store" || t[1] == "storeg") return run_store(t);
+    if (t[1] == "sdk" || t[1] == "sdkg") return run_sdk(t);
   }
   return "bad-op";
 }
